@@ -99,7 +99,7 @@ func (w *World) errChain(start string, depth int) (sites, viols, sinks, filters 
 				sinks = append(sinks, fmt.Sprintf("%s: %s has no error result", w.pos(c.Pos()), ck))
 				continue
 			}
-			if !seen[ck] && it.d+1 <= depth {
+			if !seen[ck] && it.d+1 <= bound(depth) {
 				seen[ck] = true
 				work = append(work, item{ck, it.d + 1})
 			}
